@@ -33,6 +33,8 @@ inductive Cmd (S : Type) where
   | show (v : String) | idx (v : String) (i : List Nat) | idxflat (v : String) (i : Nat)
   /-- one element of `a.conv(f, (sr, sc))` (the implementation computes the whole convolution and indexes it) -/
   | convat (a f : String) (sr sc : Nat) (i : List Nat)
+  /-- one element of `matmul((a, ta), (b, tb), c)` -/
+  | matmulat (a : String) (ta : Bool) (b : String) (tb : Bool) (c : Option String) (i : List Nat)
   | eq (a b : String) | same (a b : String) | samegrad (a b : String)
   | lin (c : String) (al : S) (a : String) (be : S) (b : String)
   | sumgrad (c : String) (parts : List String) | probe (v : String) | flags (v : String) | probekid (v : String) (i : Nat) | own (v : String)
@@ -213,6 +215,17 @@ def exec (σ : State S) (c : Cmd S) : R (State S × Out S) :=
     -- the element of the sliding-window definition (= indexing the model's `conv`: `convat_spec`)
     if convValidB img flt sr sc && inRange (convOutDims img flt sr sc) i then
       pure (σ, .scalar (convElem img flt sr sc i))
+    else throw .modelGap
+  | .matmulat a ta b tb c i => do
+    let ha ← σ.get a; let hb ← σ.get b
+    let ch ← match c with
+      | some c => do let h ← σ.get c; pure (some h)
+      | none => pure none
+    let x := σ.tensorOf ha
+    let y := σ.tensorOf hb
+    let z := ch.map σ.tensorOf
+    if matmulValidB x ta y tb z && inRange (matmulOutDims x ta y tb) i then
+      pure (σ, .scalar (matmulElem x ta y tb z i))
     else throw .modelGap
   | .idxflat v i => do
     let h ← σ.get v
